@@ -7,6 +7,7 @@ import DarkluaModel.C06.Whole
 import DarkluaModel.C06.CompoundWhole
 import DarkluaModel.C06.InterpFormat
 import DarkluaModel.C06.CompoundGuard
+import DarkluaModel.Rules.RemoveContinuePost
 /-!
 # C06 — the Luau-lowering rules preserve program behaviour: property theorems (local lemmas)
 
@@ -802,6 +803,25 @@ def continue_refines_partial : Prop :=
   ∀ (b : Block) (N : NumOps) (ρ : ExtOracle N) (n : Nat) (externs : List String), wfB b = true →
     C07.continueInLoops b = true → noRepeatB false b = true →
     runProgram ρ n externs (RemoveContinue.apply b) = runProgram ρ n externs b
+
+/-- the two Lean models of `remove_continue` — hook by hook (`Rules/RemoveContinue.lean`, what the census
+theorems of C07 are about) and loop by loop (`Rules/RemoveContinuePost.lean`, what the behaviour theorem is
+about) — produce the same tree where every `continue` is inside a loop of its function, no `repeat` loop
+owns a `continue` and no identifier is a flag name. STATED, NOT PROVED: both are compared with the REAL
+rule by the harness (check `remove_continue:post-model`); a Lean proof is a simulation between two
+stateful visitor runs (meta/C06.json, proof_gaps). -/
+def continue_models_agree : Prop :=
+  ∀ (b : Block), C07.continueInLoops b = true → RemoveContinuePost.nrcB b = true →
+    (∀ k, b.refs (.ref (RemoveContinue.identifier k)) = false ∧ b.refs (.wat (RemoveContinue.identifier k)) = false) →
+    RemoveContinue.apply b = RemoveContinuePost.apply b
+
+-- non-vacuity: `while c do if a then continue end; f() end` through both models
+example : RemoveContinue.apply
+    (.mk [.while_ (.var "c") (.mk [.ifs [(.var "a", .mk [] (some .cont))] none,
+      .callStmt (.call (.var "f") none .tuple [])] none)] none) =
+  RemoveContinuePost.apply
+    (.mk [.while_ (.var "c") (.mk [.ifs [(.var "a", .mk [] (some .cont))] none,
+      .callStmt (.call (.var "f") none .tuple [])] none)] none) := rfl
 
 /-- **`remove_types` as a whole** preserves the observable outcome (returned values, raised error,
 external-call trace) of EVERY program. Every hook is locally sound: the expression hook and the block
